@@ -18,7 +18,7 @@ P = {
  "C07": ("exploration", "history-replay monitor: predicates vs oracle game history",
          "The oracle replays each generated game keeping its own position strings and clock; all eight predicates are compared at every ply, with minimum counts of positions where each predicate is true.", "4/C07"),
  "C11": ("exploration", "exhaustive runtime enumeration vs coordinate-walk reference",
-         "All 107,648 (square, relevant-occupancy) slider cases and every leaper/line table entry are enumerated at run time and compared with ray walks; exhaustive for the tables, sampled for arbitrary 64-bit occupancies.", "4/C11"),
+         "All 107,648 (square, relevant-occupancy) slider cases and every leaper/line table entry are enumerated at run time and compared with ray walks; exhaustive for the tables, sampled for arbitrary 64-bit occupancies. Fresh engine processes whose first command is perft/moves/printboard/staticeval are compared with the oracle (tables as a user meets them).", "4/C11"),
  "C12": ("exploration", "exhaustive runtime comparison with retrograde-analysis oracle",
          "All 662,704 legal KPK positions: bitbase, endgame evaluator and static evaluation classification vs an independent retrograde solution built with the oracle's move generator.", "4/C12"),
  "C13": ("exploration", "metamorphic monitor: score(P) == score(mirror(P))",
@@ -33,8 +33,8 @@ P = {
          "san(m) must parse back to m and be resolved to exactly {m} by an independent SAN resolver; disambiguation matrices, castling with check, >128-move positions required.", "4/C17"),
  "C18": ("exploration", "differential testing vs Polyglot specification with golden Random64",
          "Book key compared with the published algorithm over games and en-passant-matrix positions x all castling-right sets.", "4/C18"),
- "C20": ("exploration", "grid + random + monotone-sweep monitor in the -Ofast and UBSan builds",
-         "Non-negativity, 70% cap and monotonicity in the clock over a grid of ~10^7 points, random tuples and sweeps; UBSan arithmetic reports count as violations.", "4/C20"),
+ "C20": ("exploration", "grid + random + monotone-sweep monitor in the -Ofast and UBSan builds; hook monitor of the working budget of live searches",
+         "Non-negativity, 70% cap and monotonicity in the clock over a grid of ~10^7 points, random tuples and sweeps; UBSan arithmetic reports count as violations. The budget a running Search actually works with is read through the iteration hooks in clock-governed searches (forced-move roots, allotment at the cap, unstable scores) and must stay within 0..70% of the clock.", "4/C20"),
 }
 P.update({
  "C05": ("fault_enumeration", "in-process search monitor: hook-delivered stops at exact node visits + transposition-table fault injection; output judged by rules oracle",
